@@ -105,7 +105,7 @@ def make_hist_int(S, h, floats=False, tuples=False):
     return S.histogram(arg, bins=bins), copy.deepcopy(arg)
 
 
-NAME_SETS = [("x", "y", "z"), ("E", "time", "N_ev"), ("a", "ab", "abc"), ("x_1", "y_1", "z_1")]
+NAME_SETS = [("x", "y", "z"), ("E", "time", "N_ev"), ("a", "ab", "abc"), ("x_1", "y_1", "z_1"), ("abc", "ab", "a")]
 
 
 def field_names(g, names, as_string=False):
